@@ -163,7 +163,7 @@ let run_store () =
               (Printf.sprintf "op %d GET %s %s returned %s" !opno nm p rm);
           if not (spec_get_ok e name pfx ib) then
             oracle (Printf.sprintf "store:bolt:%s%s" (if pfx then "prefix-not-newest" else "exact-wrong")
-                      (if pfx && scan >= int_of_n cap - 1 then ":scan>=cap" else ""))
+                      (if pfx && scan >= int_of_n cap then ":scan>=cap" else ""))
               (Printf.sprintf "op %d GET %s %s returned %s (names under the prefix: %d)" !opno nm p rb scan)
       | ["DUMP"; dm; db] ->
           let mm = mem_dump !ms.ms_root in
